@@ -74,15 +74,32 @@ def run_level(ctx, ss):
     }
     cfgs['deaths-on-coarser-step'] = lambda seed: ss.Sim(n_agents=150, diseases=ss.SIR(p_death=0.2), networks=ss.RandomNet(), dt=0.5, dur=8, rand_seed=seed, verbose=0,
                                                          demographics=[ss.Births(birth_rate=200), ss.Deaths(death_rate=120, unit='year', dt=1.0)])
+    cfgs['deaths-on-finer-step'] = lambda seed: ss.Sim(n_agents=150, diseases=ss.SIR(p_death=0.2), networks=ss.RandomNet(), dt=1.0, dur=8, rand_seed=seed, verbose=0,
+                                                       demographics=[ss.Births(birth_rate=200), ss.Deaths(death_rate=120, unit='year', dt=0.5)])
     # a population scale that is not a whole number: the reported series are the agent counts times the scale, and the balance holds for the scaled series
     cfgs['scaled-2.5'] = lambda seed: ss.Sim(n_agents=80, diseases=ss.SIR(p_death=0.3), networks=ss.RandomNet(), demographics=[ss.Births(birth_rate=300), ss.Deaths(death_rate=150)],
                                              dur=10, rand_seed=seed, verbose=0, pop_scale=2.5)
     # every child of a mother who dies is requested to die from Pregnancy.finish_step, i.e. after the resolution phase of the step
     cfgs['pregnancy-neonatal-certain'] = lambda seed: ss.Sim(n_agents=300, demographics=[ss.Pregnancy(fertility_rate=300, p_neonatal_death=ss.bernoulli(p=1.0)), ss.Deaths(death_rate=150)],
                                                              dur=6, dt=0.25, rand_seed=seed, verbose=0)
-    cfgs['copied-mid-run'] = lambda seed: ss.Sim(n_agents=60, diseases=[ss.SIR(p_death=0.3), ss.SIS()], networks=ss.RandomNet(),
+    from harness.probes import MultiDose
+    cfgs['copied-mid-run'] = lambda seed: ss.Sim(n_agents=60, diseases=[ss.SIR(p_death=0.3), ss.SIS()], networks=ss.RandomNet(), interventions=MultiDose(name='multidose'),
                                                  demographics=[ss.Births(birth_rate=500), ss.Deaths(death_rate=100)], dur=12, rand_seed=seed, verbose=0)
     import pickle, copy as _copy
+    # log every death request on the People object itself (class-level wrapper: in place before any sim is built)
+    _orig_request = ss.People.request_death
+    def _logged_request(self, uids, *a, **k):
+        if not hasattr(self, '_c10_requests'): self._c10_requests = []
+        self._c10_requests.append((int(self.sim.ti), [int(u) for u in np.atleast_1d(np.asarray(uids))]))
+        return _orig_request(self, uids, *a, **k)
+    ss.People.request_death = _logged_request
+    try:
+        _run_level_configs(ctx, ss, cfgs, Book, rng, pickle, _copy)
+    finally:
+        ss.People.request_death = _orig_request
+
+
+def _run_level_configs(ctx, ss, cfgs, Book, rng, pickle, _copy):
     for name, mk in cfgs.items():
         for rep in range(ctx.n(1, 6) + (3 if name == 'pregnancy-neonatal-certain' else 0)):
             seed = rng.randrange(1, 10**4)
